@@ -73,7 +73,7 @@ theorem TokOk.append {mx : Nat} {st : BlockState} {t : Json} (h : TokensOk mx st
 
 macro "pre_lit" h:term : tactic =>
   `(tactic| (unfold TokOk gF; simp [preSeq, preTok, preView, tok, Json.get?, List.lookup, Json.s, isBlockCtx, optHas, optStr,
-      optArr, optList, attrsOkB, Json.getInt?, $h:term]))
+      optArr, optList, attrsOkB, attrsOkT, attrsShape, plainJ, Json.getInt?, $h:term]))
 
 theorem tokOk_blank (mx d : Nat) (h : d ≤ mx) : TokOk mx d (tok "blank_line" []) := by pre_lit h
 theorem tokOk_thematic (mx d : Nat) (h : d ≤ mx) : TokOk mx d (tok "thematic_break" []) := by pre_lit h
@@ -90,14 +90,15 @@ theorem tokOk_fenced_info (mx d : Nat) (h : d ≤ mx) (code marker : Str) (a : J
       (.obj [("info", a)])) := by
   unfold TokOk gF
   simp [preSeq, preTok, preView, tok, Json.get?, Json.set, List.lookup, Json.s, isBlockCtx, optHas, optStr,
-      optArr, optList, attrsOkB, Json.getInt?, h]
+      optArr, optList, attrsOkB, attrsOkT, attrsShape, plainJ, Json.getInt?, h]
 
 /-! ### paragraphs: `add_paragraph`, `append_paragraph`, setext headings -/
 
 theorem preView_para_inv (rec : List Json → TokCtx → Nat → Bool) (s : Str) (hs : String.ofList s = "paragraph")
     (attrsJ rawJ chJ textJ : Option Json) (ctx : TokCtx) (d mx : Nat)
     (h : preView rec (some (.str s)) attrsJ rawJ chJ textJ ctx d mx = true) :
-    d ≤ mx ∧ attrsOkB attrsJ = true ∧ isBlockCtx ctx = true ∧ optStr textJ = true ∧ rawJ = none ∧ chJ = none := by
+    d ≤ mx ∧ attrsOkT "paragraph" attrsJ = true ∧ isBlockCtx ctx = true ∧ optStr textJ = true ∧ rawJ = none ∧
+      chJ = none := by
   simp only [preView, hs] at h
   simp [optHas] at h
   obtain ⟨⟨h1, h2⟩, ⟨⟨h3, h4⟩, h5⟩, h6⟩ := h
@@ -105,16 +106,18 @@ theorem preView_para_inv (rec : List Json → TokCtx → Nat → Bool) (s : Str)
 
 theorem preView_textblock (rec : List Json → TokCtx → Nat → Bool) (s : Str)
     (hs : String.ofList s = "paragraph" ∨ String.ofList s = "block_text")
-    (attrsJ textJ : Option Json) (ctx : TokCtx) (d mx : Nat) (h1 : d ≤ mx) (h2 : attrsOkB attrsJ = true)
+    (attrsJ textJ : Option Json) (ctx : TokCtx) (d mx : Nat) (h1 : d ≤ mx) (h2 : attrsOkT "paragraph" attrsJ = true)
     (h3 : isBlockCtx ctx = true) (h4 : optStr textJ = true) :
     preView rec (some (.str s)) attrsJ none none textJ ctx d mx = true := by
-  rcases hs with hs | hs <;> simp [preView, hs, optHas, h1, h2, h3, h4]
+  have h2' : attrsOkT "block_text" attrsJ = true := by
+    rw [attrsOkT_congr "paragraph" "block_text" attrsJ (by decide) (by decide)]; exact h2
+  rcases hs with hs | hs <;> simp [preView, hs, optHas, h1, h2, h2', h3, h4]
 
 theorem preView_heading (rec : List Json → TokCtx → Nat → Bool) (level : Int) (hl : 1 ≤ level ∧ level ≤ 6)
     (textJ : Option Json) (ctx : TokCtx) (d mx : Nat) (h1 : d ≤ mx)
     (h3 : isBlockCtx ctx = true) (h4 : optStr textJ = true) :
     preView rec (some (Json.s "heading")) (some (.obj [("level", .num level)])) none none textJ ctx d mx = true := by
-  simp [preView, Json.s, optHas, attrsOkB, h1, h3, h4, Json.getInt?, Json.get?, List.lookup, hl.1, hl.2]
+  simp [preView, Json.s, optHas, attrsOkB, attrsOkT, attrsShape, plainJ, h1, h3, h4, Json.getInt?, Json.get?, List.lookup, hl.1, hl.2]
 
 theorem typeOf_eq (t : Json) (n : String) (hn : n ≠ "") (h : typeOf t = .ok n) :
     ∃ s, t.get? "type" = some (.str s) ∧ String.ofList s = n := by
@@ -246,7 +249,7 @@ theorem parseAtxHeading_ok (cfg : MdCfg) (mx : Nat) (mt : RxMatch) (st : BlockSt
   have h2 : ((grp cfg st mt "atx_1").length : Int) ≤ 6 := by omega
   unfold TokOk gF
   simp [preSeq, preTok, preView, tok, Json.get?, List.lookup, Json.s, isBlockCtx, optHas, optStr,
-      optArr, optList, attrsOkB, Json.getInt?, hd, h1, h2]
+      optArr, optList, attrsOkB, attrsOkT, attrsShape, plainJ, Json.getInt?, hd, h1, h2]
 
 theorem parseIndentCode_ok (cfg : MdCfg) (mx : Nat) (mt : RxMatch) (st : BlockState) (h : TokensOk mx st) :
     Sat (GPost mx st) (parseIndentCode cfg mt st) := by
@@ -612,7 +615,7 @@ theorem tokOk_quote (mx d : Nat) (hd : d < mx) (cs : List Json) (hcs : ∀ t ∈
     unfold gF
     exact (preSeq_iff _ _ _ _ _).2 hcs
   simp [preTok, preView, tok, Json.get?, List.lookup, Json.s, isBlockCtx, optHas, optStr,
-      optArr, optList, attrsOkB, hle, hrec]
+      optArr, optList, attrsOkB, attrsOkT, attrsShape, plainJ, hle, hrec]
   omega
 
 theorem tokensOk_insert {mx : Nat} {st : BlockState} {t : Json} (i : Nat) (h : TokensOk mx st)
